@@ -104,6 +104,7 @@ type server struct {
 	havePendC               bool
 	sinceSnapClose          bool
 	truncSinceCreate        bool
+	truncT                  int64
 	burned                  uint64
 	lastStartSeq            uint64
 	trailing                uint64
